@@ -581,6 +581,12 @@ class EnforcedForest:
             ) and (edge.get("geometry") == kwargs.get("geometry")):
                 return False
 
+        # if the node had a different parent it is being moved:
+        # every node has exactly one parent so drop the old edge
+        previous = self.parents.get(v)
+        if previous is not None and previous != u:
+            self.edge_data.pop((previous, v), None)
+
         # store a parent reference for traversal
         self.parents[v] = u
         # store kwargs for edge data keyed with tuple
